@@ -51,4 +51,15 @@ def editHolds (before : Bytes) (op : EditOp) (ret : Int) (after : Bytes) : Optio
         else some "occurrence count disagrees with the list"
       else none
 
+/-- the same relation when allocations may fail: a call that reports failure must leave the list
+unchanged; a call that reports success must have had its full effect -/
+def editHoldsF (before : Bytes) (op : EditOp) (ret : Int) (after : Bytes) : Option String :=
+  if !wf before then none
+  else if !wf after then some "after the call the bytes are not a well-formed element sequence"
+  else
+    match op with
+    | .add _ _ => if ret ≠ 0 then (if after == before then none else some "a failed add changed the list") else editHolds before op ret after
+    | .set _ _ => if ret ≠ 0 then (if after == before then none else some "a failed set lost previously stored data") else editHolds before op ret after
+    | _ => editHolds before op ret after
+
 end LWV.Spec
